@@ -102,7 +102,20 @@ class Job:
         return "%s|%s|%s" % (os.path.basename(self.prog), self.variant, self.sched)
 
 
+KEEPALIVE = []       # path of the build directory's .lastuse stamp (vlib/build.py purges build directories of OTHER tree hashes
+
+
+def keepalive():
+    """that were not used for 30 min: a thorough run that outlives a change of /repo HEAD must keep its own directory fresh)"""
+    for p in KEEPALIVE:
+        try:
+            os.utime(p, None)
+        except OSError:
+            pass
+
+
 def run_job(exes, job, tmp):
+    keepalive()
     rp = tempfile.mktemp(prefix="rep", dir=tmp)
     env = dict(BASE_ENV, C01_SCHED=job.sched, C01_SEED=str(job.seed), C01_REPORT=rp)
     dp = None
@@ -340,6 +353,7 @@ def run(ctx, only_replay=None):
                           what="harness / tree does not build (%s)" % v)
             return ctx.finish("proof", {"evaluations": 0, "distinct_nontrivial": 0})
     tmp = tempfile.mkdtemp(prefix="c01-", dir="/var/tmp")
+    KEEPALIVE[:] = [os.path.join(ctx.build.dir, ".lastuse")]
     try:
         return _run(ctx, quick, broken, exes, driver, tmp, gen_info, only_replay)
     finally:
